@@ -50,6 +50,7 @@ package sniff
 //@ hook after call net.JoinHostPort(h, p) (r) in (*Sniffer).TCP
 //@   update udpJoinPort = p
 //@   update udpJoined = r
+//@   update udpJoinHost = h
 //@ func (*Sniffer).TCP
 //@   props C03 C17
 //@   nonil
@@ -59,7 +60,7 @@ package sniff
 // protocols; for the longer TLS replies, built by two appends, the solvers do not finish the
 // content proof, and only the byte count above is proved)
 //@   ensures !tcpHTTP && isnil(ret1) && len(ret0) <= 3 ==> forall(i, 0, len(ret0), ret0[i] == sel(rdata, src(payload(stream)), old(sel(rpos, src(payload(stream)))) + i))
-//@   ensures !tcpHTTP ==> *reqAddr == old(*reqAddr) || (udpSplitArg == old(*reqAddr) && *reqAddr == udpJoined && udpJoinPort == udpSplitPort)
+//@   ensures !tcpHTTP ==> *reqAddr == old(*reqAddr) || (udpSplitArg == old(*reqAddr) && *reqAddr == udpJoined && udpJoinPort == udpSplitPort && udpJoinHost != "")
 //@   modifies any
 
 //@ func (*Sniffer).UDP
@@ -67,8 +68,8 @@ package sniff
 //@   nonil
 //@   requires reqAddr != nil
 //@   ensures forall(i, 0, len(data), data[i] == old(data[i]))
-//@   ensures *reqAddr == old(*reqAddr) || (udpSplitArg == old(*reqAddr) && *reqAddr == udpJoined && udpJoinPort == udpSplitPort)
-//@   modifies *reqAddr, rpos, rlen, rdata, rbase, roff, udpSplitArg, udpSplitPort, udpJoinPort, udpJoined
+//@   ensures *reqAddr == old(*reqAddr) || (udpSplitArg == old(*reqAddr) && *reqAddr == udpJoined && udpJoinPort == udpSplitPort && udpJoinHost != "")
+//@   modifies *reqAddr, rpos, rlen, rdata, rbase, roff, udpSplitArg, udpSplitPort, udpJoinPort, udpJoined, udpJoinHost
 
 // ---------------------------------------------------------------------------
 // Transparency (C17). UDP: the hook is handed the slice the server forwards next and must not
@@ -78,9 +79,11 @@ package sniff
 //@ ghost var udpSplitPort Str
 //@ ghost var udpJoinPort Str
 //@ ghost var udpJoined Str
+//@ ghost var udpJoinHost Str
 //@ hook after call net.SplitHostPort(a) (h, p, e) in (*Sniffer).UDP
 //@   update udpSplitArg = a
 //@   update udpSplitPort = p
 //@ hook after call net.JoinHostPort(h, p) (r) in (*Sniffer).UDP
 //@   update udpJoinPort = p
 //@   update udpJoined = r
+//@   update udpJoinHost = h
